@@ -74,7 +74,7 @@ MANIFEST = {
                   "form of the write/read-back pipeline + C11_video_starts_sync + C09Spec.S_flags); the same under ONE boolean "
                   "hypothesis C11Spec.ref_sync_hyps (C11_segmenter_segments_start_sync_applies, "
                   "C11_segmenter_lazy_segments_start_sync_applies), which the W correspondence evaluates on every built-tool run "
-                  "(evidence notes.correspondence.sync_theorem_applies: on how many runs the theorems applied; there the files the "
+                  "(evidence coverage.correspondence.sync_theorem_applies: on how many runs the theorems applied; there the files the "
                   "tool wrote are checked against the conclusion). For the multiplexed writer the decoded-level sync clause is "
                   "evaluated the same way but not proved. Only explored by correspondence/search, not proved: the byte-level box codecs of moof/mdat/styp and "
                   "DecodeFile's regrouping of a box stream into segments and fragments (C05 proves the tfhd/trun codecs and is "
@@ -307,7 +307,7 @@ def run(ctx):
     ctx.proof_violation_if_broken(pr, "c11 search: %d evaluations, no failing input" % ctx.notes.get("search_evaluations", 0))
     ctx.cov["rule"] = ("corr W also evaluates the extracted C11Spec.ref_sync_hyps (hypothesis of the two _applies theorems) on "
                        "the tables DecodeFile saw and, where true, checks that every file the built tool wrote for the reference "
-                       "track starts with a sample whose flags have bit 16 clear (count per mode in notes.correspondence."
+                       "track starts with a sample whose flags have bit 16 clear (count per mode in coverage.correspondence."
                        "sync_theorem_applies); corr C: combine-segs at the decoded level through the tagged driver (k = 1-4 files, ids distinct / duplicate / "
                        "too few / too many; inputs with 1-6 truns, per-sample fields vs tfhd defaults vs first-sample-flags vs values "
                        "LIFTED TO THE TREX (outside the guard), 4 base-data-offset modes, styp or not, no sample; negative: two "
